@@ -44,7 +44,7 @@ LEVEL_NOTE = ('Trusted: canon.children/all_paths (plain recursion over dunder '
 CONST_TUPLE = ((1, 2), 3)
 MENUS = {
     'full': ['cfg', 'cfgpos', 'list0', 'list2', 'tuple0', 'tuple2', 'dict2',
-             'ddict1', 'nt', 'tmp', 'dict0', 'tmpprim'],
+             'ddict1', 'ddict2r', 'nt', 'ntsub', 'tmp', 'dict0', 'tmpprim'],
     'mid': ['cfg', 'list2', 'tuple2', 'dict1', 'tmp', 'tmpprim'],
     'small': ['cfg', 'list2', 'dict1', 'tuple1'],
 }
@@ -544,6 +544,32 @@ def _check_cycle(root, node, res, case):
   run('map_children-memoized', lambda: daglish.MemoizedTraversal.run(
       ident, root), True)
   run('build', lambda: fdl.build(root), True)
+
+  # a callback that tolerates failing children: a leaf raises, the exception
+  # passes through the enclosing list / tuple and is swallowed by the dict or
+  # Buildable above it; the cycle must still be reported
+  class Boom(Exception):
+    pass
+
+  def tolerant(value, state):
+    if isinstance(value, str):
+      raise Boom(value)
+    if not state.is_traversable(value):
+      return value
+    traverser = daglish.find_node_traverser(type(value))
+    values, _ = traverser.flatten(value)
+    first = None
+    for v, pe in zip(values, traverser.path_elements(value)):
+      try:
+        state.call(v, pe)
+      except Boom as e:
+        first = first or e
+    if first is not None and isinstance(value, (list, tuple)):
+      raise first       # after every child (and any back edge) was visited
+    return value
+
+  run('tolerant-callback-memoized', lambda: daglish.MemoizedTraversal.run(
+      tolerant, root), True)
   run('iterate-unmemoized', lambda: list(daglish.iterate(
       root, memoized=False)), False)
   run('collect_paths_by_id', lambda: daglish.collect_paths_by_id(
